@@ -12,6 +12,7 @@ import (
 	"path"
 	"path/filepath"
 	"strings"
+	"syscall"
 
 	"github.com/emersion/go-webdav/internal"
 )
@@ -75,7 +76,9 @@ func errFromOS(err error) error {
 		err = fmt.Errorf("%s: %w", lerr.Op, lerr.Err)
 	}
 
-	if errors.Is(err, fs.ErrNotExist) {
+	if errors.Is(err, fs.ErrNotExist) || errors.Is(err, syscall.ENOTDIR) {
+		// ENOTDIR: an ancestor of the path is a regular file, so no resource
+		// can be mapped at that path
 		return NewHTTPError(http.StatusNotFound, err)
 	} else if errors.Is(err, fs.ErrPermission) {
 		return NewHTTPError(http.StatusForbidden, err)
